@@ -100,6 +100,11 @@ CLAIMED = {
         "Static: LilyPond note names are lower-cased letter + is/es per accidental in order + octave-3 primes or 3-octave commas for a symbolic octave; rests, single notes and chords with base values incl. longa/breve, dots and tuplet groups decode to the music they were built from; key (all 30 keys) and time are shown on request, from_Track shows them exactly on change, the header carries title/author/subtitle. MusicXML: no element is appended twice; per note step/alter/octave, chord marks on every chord note but the first, dot count, tuplet ratio and duration/divisions == exact length in quarter notes; meter, fifths, mode; matching unique part ids, measure numbers 1..n; titles, names and instrument names enter as text nodes unchanged; empty bars export.",
         "Not decided: serialisation/escaping (delegated to xml.dom.minidom), longa/breve in MusicXML, shapes beyond those enumerated (covered by the per-entry argument). Trusted: CPython ast, abstract evaluator + engine/domdom.py (variants/c19.py), C09.",
         "DESIGN.md section 2, C19"),
+    "C20": (
+        "abstract interpretation of the tuning arithmetic on abstract tunings (plain strings and courses, symbolic pitches, symbolic in/out-of-range strings and frets); comparison of find_fingering with a brute-force specification under summarised fret tables; evaluation of the registry search over a model registry; value-kind flow rules (a course list reaching a Note operation, a float reaching range / repetition / from_Bar); column-wise decoding of a rendered model bar",
+        "Static: find_frets reports the semitone distance to the open string (first note of a course) exactly when it lies in 0..maxfret, else None, one entry per string; get_Note is open string + fret and raises RangeError on all four unbounded out-of-range sides; find_fingering returns exactly the injective string assignments whose non-open frets span less than the maximum distance, ordered by total frets; get_tuning(s) return only tunings satisfying every given constraint with prefix / exact-name semantics; every consumer of tuning.tuning accepts courses; _get_width and the page loops produce integers and every bar is rendered once; a rendered bar has one equally long line per string and decodes column by column to the entries' fingerings.",
+        "Not decided: find_chord_fingering, whole-composition tablature text, the 76 concrete registered tunings (rules are over abstract tunings). Trusted: CPython ast, abstract evaluator (variants/c20.py), brute-force specification and decoder in rules/c20.py.",
+        "DESIGN.md section 2, C20"),
     "C06": (
         "offset-domain abstract interpretation of every chord builder (interval constructors summarised by their C02 post-condition) against a meaning-keyed chord-theory oracle; table agreement; abstract evaluation of the shorthand parser on root shapes x keys, aliases, slash, polychord, NC, list and malformed classes",
         "Static: each of the shorthand builders (incl. the lambda) yields, for 7 root letters x arbitrary accidentals, exactly the (letter, semitone) list its meaning prescribes; chord_shorthand and chord_shorthand_meaning have equal key sets; from_shorthand maps every key, every min/mi/-/maj/ma alias spelling, slash basses, polychords, NC and list input to the right builder result and rejects unknown suffixes / bad roots / bad basses with the documented errors.",
